@@ -58,6 +58,72 @@ Proof. intros. unfold onehot, zeros. apply upd_zeros_one_hot. lia. Qed.
 Lemma Forall2_len {A B} (R : A -> B -> Prop) l1 l2 : Forall2 R l1 l2 -> length l1 = length l2.
 Proof. induction 1; cbn; auto. Qed.
 
+  Lemma pass_counter_spec m0 is : forall pre M, 0 <= M ->
+    lb_pass_counter is m0 (pre ++ zeros (zlen is + M), zlen pre) =
+    Some (pre ++ map (counter_bit m0) is ++ zeros M, zlen pre + zlen is).
+  Proof.
+    induction is as [|i is IH]; intros pre M HM.
+    - cbn [lb_pass_counter map app]. rewrite zlen_nil.
+      replace (0 + M) with M by lia. replace (zlen pre + 0) with (zlen pre) by lia. reflexivity.
+    - cbn [lb_pass_counter fst snd map]. rewrite zlen_cons. pose proof (zlen_nonneg is).
+      replace (1 + zlen is + M) with (1 + (zlen is + M)) by lia.
+      rewrite set_cell by lia. cbn [bind].
+      replace (pre ++ [counter_bit m0 i] ++ zeros (zlen is + M)) with ((pre ++ [counter_bit m0 i]) ++ zeros (zlen is + M))
+        by now rewrite <- app_assoc.
+      replace (zlen pre + 1) with (zlen (pre ++ [counter_bit m0 i])) by (rewrite zlen_app; reflexivity).
+      rewrite IH by lia. rewrite zlen_app. change (zlen [counter_bit m0 i]) with 1. f_equal. f_equal; [|lia].
+      now rewrite <- !app_assoc.
+  Qed.
+
+
+Section RepeatFlags.
+  Variable E : Type.
+  Variable eqb : E -> E -> bool.
+  Hypothesis eqb_spec : forall a b, eqb a b = true <-> a = b.
+
+  Lemma pass_repeat_spec es p ds fs : Forall2 (fun d f => lb_repeats E eqb es p d = Some f) ds fs ->
+    forall pre M, 0 <= M ->
+    lb_pass_repeat E eqb ds es p (pre ++ zeros (zlen ds + M), zlen pre) =
+    Some (pre ++ map b2z fs ++ zeros M, zlen pre + zlen ds).
+  Proof.
+    induction 1 as [|d f ds fs Hf _ IH]; intros pre M HM.
+    - cbn [lb_pass_repeat map app]. rewrite zlen_nil.
+      replace (0 + M) with M by lia. replace (zlen pre + 0) with (zlen pre) by lia. reflexivity.
+    - cbn [lb_pass_repeat fst snd map]. rewrite Hf. cbn [bind]. rewrite zlen_cons. pose proof (zlen_nonneg ds).
+      replace (1 + zlen ds + M) with (1 + (zlen ds + M)) by lia.
+      assert (Hstep : (if f then py_set (pre ++ zeros (1 + (zlen ds + M))) (zlen pre) 1
+                       else Some (pre ++ zeros (1 + (zlen ds + M)))) =
+                      Some ((pre ++ [b2z f]) ++ zeros (zlen ds + M))).
+      { destruct f; cbn [b2z]; [rewrite set_cell by lia|rewrite skip_cell by lia]; now rewrite <- app_assoc. }
+      rewrite Hstep. cbn [bind].
+      replace (zlen pre + 1) with (zlen (pre ++ [b2z f])) by (rewrite zlen_app; reflexivity).
+      rewrite IH by lia. rewrite zlen_app. change (zlen [b2z f]) with 1. f_equal. f_equal; [|lia].
+      now rewrite <- !app_assoc.
+  Qed.
+
+  Lemma repeat_flags_exist es p ds :
+    Forall (fun d => 1 <= d) ds -> 0 <= p < zlen es ->
+    exists fs, Forall2 (fun d f => lb_repeats E eqb es p d = Some f) ds fs /\
+               Forall2 (fun d f => f = true <-> lb_match E es p d) ds fs.
+  Proof.
+    intros Hpos Hp. induction Hpos as [|d ds Hd _ (fs & IH1 & IH2)]; [exists []; split; constructor|].
+    assert (exists a, nth_error es (Z.to_nat p) = Some a) as (a & Ha).
+    { destruct (nth_error es (Z.to_nat p)) eqn:Hn; [eauto|]. apply nth_error_None in Hn. unfold zlen in *; lia. }
+    destruct (p - d <? 0) eqn:Hlt.
+    - assert (lb_repeats E eqb es p d = Some false) as H1
+        by (unfold lb_repeats; cbv zeta; rewrite Hlt; reflexivity).
+      exists (false :: fs). split; constructor; auto. unfold lb_match. split; [discriminate|lia].
+    - assert (exists b, nth_error es (Z.to_nat (p - d)) = Some b) as (b & Hb).
+      { destruct (nth_error es (Z.to_nat (p - d))) eqn:Hn; [eauto|]. apply nth_error_None in Hn. unfold zlen in *; lia. }
+      assert (lb_repeats E eqb es p d = Some (eqb a b)) as H1.
+      { unfold lb_repeats; cbv zeta; rewrite Hlt. rewrite !py_nth_pos, Ha, Hb by lia. reflexivity. }
+      exists (eqb a b :: fs). split; constructor; auto.
+      unfold lb_match. rewrite Ha, Hb. rewrite eqb_spec.
+      split; [intros ->; split; [lia|reflexivity]|intros [_ H]; congruence].
+  Qed.
+
+End RepeatFlags.
+
 Section LookbackInput.
   Variable E : Type.
   Variable eqb : E -> E -> bool.
@@ -93,43 +159,6 @@ Section LookbackInput.
       now rewrite <- !app_assoc.
   Qed.
 
-  Lemma pass_counter_spec m0 is : forall pre M, 0 <= M ->
-    lb_pass_counter is m0 (pre ++ zeros (zlen is + M), zlen pre) =
-    Some (pre ++ map (counter_bit m0) is ++ zeros M, zlen pre + zlen is).
-  Proof.
-    induction is as [|i is IH]; intros pre M HM.
-    - cbn [lb_pass_counter map app]. rewrite zlen_nil.
-      replace (0 + M) with M by lia. replace (zlen pre + 0) with (zlen pre) by lia. reflexivity.
-    - cbn [lb_pass_counter fst snd map]. rewrite zlen_cons. pose proof (zlen_nonneg is).
-      replace (1 + zlen is + M) with (1 + (zlen is + M)) by lia.
-      rewrite set_cell by lia. cbn [bind].
-      replace (pre ++ [counter_bit m0 i] ++ zeros (zlen is + M)) with ((pre ++ [counter_bit m0 i]) ++ zeros (zlen is + M))
-        by now rewrite <- app_assoc.
-      replace (zlen pre + 1) with (zlen (pre ++ [counter_bit m0 i])) by (rewrite zlen_app; reflexivity).
-      rewrite IH by lia. rewrite zlen_app. change (zlen [counter_bit m0 i]) with 1. f_equal. f_equal; [|lia].
-      now rewrite <- !app_assoc.
-  Qed.
-
-  Lemma pass_repeat_spec es p ds fs : Forall2 (fun d f => lb_repeats E eqb es p d = Some f) ds fs ->
-    forall pre M, 0 <= M ->
-    lb_pass_repeat E eqb ds es p (pre ++ zeros (zlen ds + M), zlen pre) =
-    Some (pre ++ map b2z fs ++ zeros M, zlen pre + zlen ds).
-  Proof.
-    induction 1 as [|d f ds fs Hf _ IH]; intros pre M HM.
-    - cbn [lb_pass_repeat map app]. rewrite zlen_nil.
-      replace (0 + M) with M by lia. replace (zlen pre + 0) with (zlen pre) by lia. reflexivity.
-    - cbn [lb_pass_repeat fst snd map]. rewrite Hf. cbn [bind]. rewrite zlen_cons. pose proof (zlen_nonneg ds).
-      replace (1 + zlen ds + M) with (1 + (zlen ds + M)) by lia.
-      assert (Hstep : (if f then py_set (pre ++ zeros (1 + (zlen ds + M))) (zlen pre) 1
-                       else Some (pre ++ zeros (1 + (zlen ds + M)))) =
-                      Some ((pre ++ [b2z f]) ++ zeros (zlen ds + M))).
-      { destruct f; cbn [b2z]; [rewrite set_cell by lia|rewrite skip_cell by lia]; now rewrite <- app_assoc. }
-      rewrite Hstep. cbn [bind].
-      replace (zlen pre + 1) with (zlen (pre ++ [b2z f])) by (rewrite zlen_app; reflexivity).
-      rewrite IH by lia. rewrite zlen_app. change (zlen [b2z f]) with 1. f_equal. f_equal; [|lia].
-      now rewrite <- !app_assoc.
-  Qed.
-
   Lemma concat_onehot_length (cs : list Z) : zlen (concat (map (onehot n) cs)) = n * zlen cs.
   Proof.
     induction cs as [|x cs IH]; [unfold zlen; cbn [map concat length]; lia|].
@@ -153,27 +182,6 @@ Section LookbackInput.
       - apply nth_error_None in Hn. unfold zlen in *. lia. }
     destruct (enc_ok ev Hvev) as (c & Hc & Hr).
     exists (c :: cs). constructor; [|exact IH]. exists ev. auto.
-  Qed.
-
-  Lemma repeat_flags_exist es p ds :
-    Forall (fun d => 1 <= d) ds -> 0 <= p < zlen es ->
-    exists fs, Forall2 (fun d f => lb_repeats E eqb es p d = Some f) ds fs /\
-               Forall2 (fun d f => f = true <-> lb_match E es p d) ds fs.
-  Proof.
-    intros Hpos Hp. induction Hpos as [|d ds Hd _ (fs & IH1 & IH2)]; [exists []; split; constructor|].
-    assert (exists a, nth_error es (Z.to_nat p) = Some a) as (a & Ha).
-    { destruct (nth_error es (Z.to_nat p)) eqn:Hn; [eauto|]. apply nth_error_None in Hn. unfold zlen in *; lia. }
-    destruct (p - d <? 0) eqn:Hlt.
-    - assert (lb_repeats E eqb es p d = Some false) as H1
-        by (unfold lb_repeats; cbv zeta; rewrite Hlt; reflexivity).
-      exists (false :: fs). split; constructor; auto. unfold lb_match. split; [discriminate|lia].
-    - assert (exists b, nth_error es (Z.to_nat (p - d)) = Some b) as (b & Hb).
-      { destruct (nth_error es (Z.to_nat (p - d))) eqn:Hn; [eauto|]. apply nth_error_None in Hn. unfold zlen in *; lia. }
-      assert (lb_repeats E eqb es p d = Some (eqb a b)) as H1.
-      { unfold lb_repeats; cbv zeta; rewrite Hlt. rewrite !py_nth_pos, Ha, Hb by lia. reflexivity. }
-      exists (eqb a b :: fs). split; constructor; auto.
-      unfold lb_match. rewrite Ha, Hb. rewrite eqb_spec.
-      split; [intros ->; split; [lia|reflexivity]|intros [_ H]; congruence].
   Qed.
 
   Variable dists : list Z.
@@ -201,7 +209,7 @@ Section LookbackInput.
     assert (valid a) as Hva by (eapply Forall_nth_error; eauto).
     destruct (enc_ok a Hva) as (c & Hc & Hr).
     destruct (next_classes_exist es p dists Hv dists_pos ltac:(lia)) as (cs & Hcs).
-    destruct (repeat_flags_exist es p dists dists_pos ltac:(lia)) as (fs & Hfs1 & Hfs2).
+    destruct (repeat_flags_exist E eqb eqb_spec es p dists dists_pos ltac:(lia)) as (fs & Hfs1 & Hfs2).
     pose proof (zlen_nonneg dists) as Hk.
     assert (Hlcs : zlen cs = zlen dists).
     { unfold zlen. f_equal. symmetry. eapply Forall2_len; eauto. }
@@ -227,7 +235,7 @@ Section LookbackInput.
       rewrite app_assoc.
       match goal with |- context [lb_pass_repeat _ _ _ _ _ (?pre ++ _, ?off)] =>
         replace off with (zlen pre) by (rewrite (zlen_app _ (map _ _)), zlen_map; reflexivity) end.
-      rewrite (pass_repeat_spec es p dists fs Hfs1) by lia. cbn [bind fst snd].
+      rewrite (pass_repeat_spec E eqb es p dists fs Hfs1) by lia. cbn [bind fst snd].
       match goal with |- (if ?b then _ else _) = _ => destruct b eqn:Hchk end.
       + rewrite app_nil_r. rewrite <- !app_assoc. reflexivity.
       + exfalso. rewrite !zlen_app, zlen_map, Hzr in Hchk.
